@@ -1,4 +1,4 @@
-import PbVerif.Lemmas.FastInitCheck
+import PbVerif.Lemmas.FastInitFlagSound
 /-
 C08 — generated fast path and reflection path are indistinguishable: the parts of the table-driven
 fast path that decide *required-field initialisation*.
@@ -211,5 +211,115 @@ def mapS : Schema := ⟨[
 example : MapOK cycS noXr ∧ ExtOK cycS noXr ∧ MapOK mapS noXr ∧ ExtOK mapS noXr ∧ Reaches mapS noXr 0 :=
   ⟨mapOK_of_B (by decide), extOK_of_B (by decide), mapOK_of_B (by decide), extOK_of_B (by decide),
    .step (j := 2) (by decide) (.step (j := 3) (by decide) (.here (by decide)))⟩
+
+/-- every decoded message is typed (so (b) applies to whatever the decoder produces) -/
+theorem decoded_typed (S : Schema) (xr : Nat → Bool) (hS : schemaOK S = true) (hM : MapOK S xr) (mi : Nat)
+    (b : List Spec.Byte) (m : Msg) (h : unmarshal S mi b = .ok m) : tyMsg S mi m = true := by
+  refine ty_of_dwfMsg S xr hM m mi ?_
+  unfold unmarshal unmarshalInto at h
+  split at h
+  · cases h
+  · exact (dec_inv S hS _).1 _ _ _ _ _ _ (dwfMsg_empty S mi) h
+
+/-! ### (c) the `initialized` flag computed while decoding
+
+`decFlag S nd rule mi b` = the message decoded from `b` together with the flag (`FastInit.flagLoop`:
+`requiredMask` popcount, `if f.funcs.isInit != nil && !o.initialized { initialized = false }`, and the
+rule `consumeMapOfMessage` uses to combine the occurrences of a map value).  `proto.Unmarshal` skips
+`checkInitialized` when the flag is set, so the flag has to imply `initMsg`. -/
+
+/-- the flag is sound for rule `rule`: for every schema obeying the descriptor rules (`schemaOK`, `MapOK`,
+`ExtOK`, `ReqOK`), `needsInitCheck` results `nd` that are never wrongly `false`, every message type and
+every input, a set flag means the decoded message is initialized -/
+def FlagSound (rule : MapRule) : Prop :=
+  ∀ (S : Schema) (xr nd : Nat → Bool), schemaOK S = true → MapOK S xr → ExtOK S xr → ReqOK S →
+    (∀ i, nd i = false → ¬ Reaches S xr i) →
+    ∀ (mi : Nat) (b : List Spec.Byte) (m : Msg), decFlag S nd rule mi b = .ok (m, true) → initMsg S mi m = true
+
+/-- **the flag with the repaired rule (AND over the occurrences, at least one) is sound**, all schemas, all inputs -/
+theorem flag_sound_fixed : FlagSound .andOcc :=
+  fun S xr nd hS hM hX hR hnd mi b m h => decFlag_sound S xr nd .andOcc hS hM hX hR hnd (Or.inl rfl) mi b m h
+
+/-- **the flag of the code as it is (OR rule) is sound for everything except message-valued maps** -/
+theorem flag_sound (S : Schema) (xr nd : Nat → Bool) (hS : schemaOK S = true) (hM : MapOK S xr) (hX : ExtOK S xr)
+    (hR : ReqOK S) (hnd : ∀ i, nd i = false → ¬ Reaches S xr i) (hno : NoMsgMap S)
+    (mi : Nat) (b : List Spec.Byte) (m : Msg) (h : decFlag S nd .orOcc mi b = .ok (m, true)) :
+    initMsg S mi m = true :=
+  decFlag_sound S xr nd .orOcc hS hM hX hR hnd (Or.inr hno) mi b m h
+
+/-- T{m: {1: V{w:{}} then V{}}}: one map entry carrying the value field twice (0a08 0801 12020a00 1200) -/
+def mapBytes : List Spec.Byte := [0x0a, 0x08, 0x08, 0x01, 0x12, 0x02, 0x0a, 0x00, 0x12, 0x00]
+
+def mapNd : Nat → Bool := fun i => decide (i < 4)
+
+/-- with the OR rule the flag is set although W.x is missing in the merged value -/
+theorem mapS_or_flag :
+    (match decFlag mapS mapNd .orOcc 0 mapBytes with
+     | .ok (m, fl) => fl && !initMsg mapS 0 m
+     | .error _ => false) = true := by
+  decide
+
+/-- with the AND rule the flag is not set on this input (and the decoded message is the same) -/
+example :
+    (match decFlag mapS mapNd .andOcc 0 mapBytes with
+     | .ok (m, fl) => !fl && !initMsg mapS 0 m
+     | .error _ => false) = true := by
+  decide
+
+theorem mapNd_sound : ∀ i, mapNd i = false → ¬ Reaches mapS noXr i := by
+  intro i hi hr
+  have hge : mapS.msgs.length ≤ i := by
+    simp only [mapNd, decide_eq_false_iff_not] at hi
+    show 4 ≤ i
+    omega
+  rcases reaches_iff.1 hr with ho | ⟨j, hj, _⟩
+  · simp [own, hasRequired, msg_out_of_range hge, noXr] at ho
+  · rw [succs_out_of_range hge] at hj; cases hj
+
+/-- **REFUTED** (finding `map-message-value-init-or`): the flag of the code as it is is not sound -/
+theorem flag_sound_or_false : ¬ FlagSound .orOcc := by
+  intro hF
+  have h := mapS_or_flag
+  cases hd : decFlag mapS mapNd .orOcc 0 mapBytes with
+  | error e => rw [hd] at h; cases h
+  | ok r =>
+    obtain ⟨m, fl⟩ := r
+    rw [hd] at h
+    simp only [Bool.and_eq_true, Bool.not_eq_true'] at h
+    obtain ⟨rfl, hi⟩ := h
+    have := hF mapS noXr mapNd (by decide) (mapOK_of_B (by decide)) (extOK_of_B (by decide))
+      (reqOK_of_B (by decide)) mapNd_sound 0 mapBytes m hd
+    rw [hi] at this; cases this
+
+/-- the flag is not vacuous: an initialized input sets it under both rules
+(T{m: {1: V{w: W{x: 5}}}} = 0a08 0801 1204 0a02 0805) -/
+example :
+    (match decFlag mapS mapNd .orOcc 0 [0x0a, 0x08, 0x08, 0x01, 0x12, 0x04, 0x0a, 0x02, 0x08, 0x05],
+           decFlag mapS mapNd .andOcc 0 [0x0a, 0x08, 0x08, 0x01, 0x12, 0x04, 0x0a, 0x02, 0x08, 0x05] with
+     | .ok (m, fl), .ok (_, fl') => fl && fl' && initMsg mapS 0 m
+     | _, _ => false) = true := by
+  decide
+
+/-! #### merging into an existing message (`UnmarshalOptions{Merge: true}`)
+
+The flag is computed from the input alone.  It is sound when everything nested in the target message was
+initialized before; without that it is not (under either rule): observed on the real code as
+`proto.UnmarshalOptions{Merge: true}.Unmarshal(nil, &TestRequiredForeign{OptionalMessage: &TestRequired{}})`
+returning nil for the generated type and the required-field error for dynamicpb. -/
+
+theorem flag_sound_merge (rule : MapRule) (hrule : rule = .andOcc ∨ ∀ S, NoMsgMap S → True)
+    (S : Schema) (xr nd : Nat → Bool) (hS : schemaOK S = true) (hM : MapOK S xr) (hX : ExtOK S xr)
+    (hR : ReqOK S) (hnd : ∀ i, nd i = false → ¬ Reaches S xr i) (hr : rule = .andOcc ∨ NoMsgMap S)
+    (mi : Nat) (m0 : Msg) (b : List Spec.Byte) (m : Msg) (hw : dwfMsg S mi m0 = true)
+    (h0 : initFields S (S.msg mi) m0.fields = true)
+    (h : decFlagInto S nd rule mi m0 b = .ok (m, true)) : initMsg S mi m = true :=
+  decFlagInto_sound S xr nd rule hS hM hX hR hnd hr mi m0 b m hw h0 h
+
+/-- V{w: W{}} as merge target, empty input: the flag is set, the result is not initialized -/
+theorem flag_merge_needs_initialized_target :
+    (match decFlagInto mapS mapNd .andOcc 2 (.mk (.cons 1 (.one (.msg (.mk .nil []))) .nil) []) [] with
+     | .ok (m, fl) => fl && !initMsg mapS 2 m
+     | .error _ => false) = true := by
+  decide
 
 end C08
